@@ -99,8 +99,14 @@ inductive OT where
 
 /-- one model file with the files it makes textX load -/
 inductive Load where
-  | mk (pid : Nat) (classes : List ClassId) (syntaxOk immut : Bool) (root : OT) (pre : Option Hook)
+  | mk (pid : Nat) (classes : List ClassId) (syntaxOk : Bool) (root : OT) (pre : Option Hook)
        (imports : List Load) (resolve : List Hook) (unresolved : Bool) (oprocs : List Hook) (mproc : Hook)
+
+/-- the model is a value of an immutable type (`str`, `int`, …) when the top rule
+application is a match rule: no object is created for it -/
+def OT.isConv : OT → Bool
+  | .conv _ => true
+  | .obj _ _ _ => false
 
 /-- nested independent loads started by user code: arbitrary state transformers -/
 abbrev Env (α : Type) := Nat → Sh α → Sh α × Bool
@@ -279,6 +285,48 @@ def failOuter (P : PRec) (left : List PRec) (sh : Sh α) : Sh α × Except (List
 def newRec (pid : Nat) (classes : List ClassId) (resolve : List Hook) (unresolved : Bool) (oprocs : List Hook) : PRec :=
   { pid, classes, replaced := false, allocs := [], insts := [], resolve, unresolved, oprocs, hasParser := false }
 
+/-- first part of `get_model_from_str` / `parse_tree_to_objgraph`: parse, instrument,
+`process_node`, pre-resolution callback.  `.inl` = failed (with the final result of
+the node), `.inr (P, sh)` = go on with the imports. -/
+def front (env : Env α) (isMain hasImports : Bool) (pid : Nat) (classes : List ClassId) (syntaxOk : Bool) (root : OT) (pre : Option Hook)
+    (resolve : List Hook) (unresolved : Bool) (oprocs : List Hook) (repo : List PRec) (sh : Sh α) :
+    (Sh α × Except (List PRec) (List PRec)) ⊕ (PRec × Sh α) :=
+  if !syntaxOk then .inl (sh, .error repo) else
+  let p := replace (newRec pid classes resolve unresolved oprocs) sh
+  let b := buildOT env p.2 root p.1
+  if !b.2.2 then .inl ((giveUp b.2.1 b.1).1, .error repo) else
+  -- an imported model is registered by the repository's own pre-resolution callback,
+  -- which needs attributes on the model: AttributeError for a model of an immutable type
+  if !isMain && root.isConv then .inl (failOuter b.2.1 repo b.1) else
+  let q := match pre with
+    | some h => runHook env 1 pid classes h b.1
+    | none => (b.1, true)
+  if !q.2 then .inl (failOuter b.2.1 repo q.1) else
+  -- `load_models` stores the repository on the model: AttributeError for a model of an immutable type
+  if root.isConv && hasImports then .inl (failOuter b.2.1 repo q.1) else .inr (b.2.1, q.1)
+
+/-- last part, after the imported models are loaded: `_tx_parser` is set; the main
+model resolves, ends the construction of all models and runs the object
+processors (`phase2`), then gives back its own instrumentation (immutable models
+never reach `_end_model_construction`); finally the model processors
+(`internal_model_from_file`). -/
+def back (env : Env α) (isMain immut : Bool) (pid : Nat) (classes : List ClassId) (mproc : Hook)
+    (P0 : PRec) (repo mine : List PRec) (sh : Sh α) : Sh α × Except (List PRec) (List PRec) :=
+  let P : PRec := if immut then P0 else { P0 with hasParser := true }
+  if isMain then
+    let ms := if immut then [] else P :: (repo ++ mine)
+    let r := phase2 env ms sh
+    let P' := match r.2.1 with
+      | x :: _ => x
+      | [] => P
+    if !r.2.2 then failOuter P' [] r.1 else
+    let f := restore P' r.1
+    let m := runHook env 5 pid classes mproc f.1
+    (m.1, if m.2 then .ok [] else .error [])
+  else
+    let m := runHook env 5 pid classes mproc sh
+    (m.1, if m.2 then .ok (P :: mine) else .error (repo ++ P :: mine))
+
 mutual
 /-- `internal_model_from_file`: `get_model_from_str` followed by the model
 processors.  `repo` = the models of this attempt which are completely parsed
@@ -286,32 +334,13 @@ processors.  `repo` = the models of this attempt which are completely parsed
 Result: `.ok new` (the models completed by this call, in registration order) or
 `.error left` (failure; `left` = what is still registered). -/
 def node (env : Env α) (isMain : Bool) : Load → List PRec → Sh α → Sh α × Except (List PRec) (List PRec)
-  | .mk pid classes syntaxOk immut root pre imps resolve unresolved oprocs mproc, repo, sh =>
-    if !syntaxOk then (sh, .error repo) else
-    let p := replace (newRec pid classes resolve unresolved oprocs) sh
-    let b := buildOT env p.2 root p.1
-    if !b.2.2 then ((giveUp b.2.1 b.1).1, .error repo) else
-    let q := match pre with
-      | some h => runHook env 1 pid classes h b.1
-      | none => (b.1, true)
-    if !q.2 then failOuter b.2.1 repo q.1 else
-    match importList env imps repo [] q.1 with
-    | (sh, .error left) => failOuter b.2.1 left sh
-    | (sh, .ok mine) =>
-      let P : PRec := if immut then b.2.1 else { b.2.1 with hasParser := true }
-      if isMain then
-        let ms := if immut then [] else P :: (repo ++ mine)
-        let r := phase2 env ms sh
-        let P' := match r.2.1 with
-          | x :: _ => if immut then P else x
-          | [] => P
-        if !r.2.2 then failOuter P' [] r.1 else
-        let f := restore P' r.1
-        let m := runHook env 5 pid classes mproc f.1
-        (m.1, if m.2 then .ok [] else .error [])
-      else
-        let m := runHook env 5 pid classes mproc sh
-        (m.1, if m.2 then .ok (P :: mine) else .error (repo ++ P :: mine))
+  | .mk pid classes syntaxOk root pre imps resolve unresolved oprocs mproc, repo, sh =>
+    match front env isMain (!imps.isEmpty) pid classes syntaxOk root pre resolve unresolved oprocs repo sh with
+    | .inl res => res
+    | .inr (P, sh1) =>
+      match importList env imps repo [] sh1 with
+      | (sh2, .error left) => failOuter P left sh2
+      | (sh2, .ok mine) => back env isMain root.isConv pid classes mproc P repo mine sh2
 /-- the imported models of one model, in order -/
 def importList (env : Env α) : List Load → List PRec → List PRec → Sh α → Sh α × Except (List PRec) (List PRec)
   | [], _, mine, sh => (sh, .ok mine)
@@ -331,14 +360,16 @@ def asAction (f : Sh α → Sh α × Bool) (sh : Sh α) : Sh α × Bool :=
   let r := f { sh with own := [] }
   ({ r.1 with own := sh.own }, r.2)
 
-/-- loads started by user code are loads again: `table` = the loads user code may
-start, `fuel` bounds the nesting depth -/
+/-- the loads user code may start: action `a` runs `table[a]` -/
+def tableEnv (run : Load → Sh α → Sh α × Bool) (table : List Load) : Env α := fun a s =>
+  match table[a]? with
+  | some L' => asAction (run L') s
+  | none => (s, false)
+
+/-- loads started by user code are loads again; `fuel` bounds the nesting depth -/
 def runF (table : List Load) : Nat → Load → Sh α → Sh α × Bool
   | 0, _, sh => (sh, false)
-  | n + 1, L, sh =>
-    runMain (fun a s => match table[a]? with
-      | some L' => asAction (runF table n L') s
-      | none => (s, false)) L sh
+  | n + 1, L, sh => runMain (tableEnv (runF table n) table) L sh
 
 end
 
